@@ -1,6 +1,7 @@
 import ALV.Common.Json
 import ALV.Model.C01
 import ALV.Spec.C01
+import ALV.Spec.C01Exc
 import ALV.Gen.OpTable
 namespace ALV.Driver.C01
 open ALV ALV.J ALV.C01
@@ -30,7 +31,9 @@ partial def getPy (j : Json) : Except String Py := do
   | "stream2" => pure (.stream2 (← getPy (← field j "a")) (← getPy (← field j "b")))
   | "un" => pure (.un (nm (← getStr (← field j "d"))) (← getPy (← field j "s")))
   | "bin" => pure (.bin (nm (← getStr (← field j "d"))) (← getPy (← field j "s")) (← getPy (← field j "o")))
-  | "meth" => pure (.meth (nm (← getStr (← field j "l"))) (← getPy (← field j "s")))
+  | "meth" =>
+    let g := match optField j "g" with | some (Json.bool b) => b | _ => false
+    pure (.meth g (nm (← getStr (← field j "l"))) (← getPy (← field j "s")))
   | "append" => pure (.append (← getPy (← field j "s")) (← getPy (← field j "o")))
   | _ => throw s!"C01: unknown node kind {k}"
 
@@ -91,8 +94,122 @@ def getBArg (j : Json) : Except String BArg := do
     | none => pure (.lazy k (.list (← getNat (← field j "tag")) (← getList getTerm (← field j "xs"))))
   | c => throw s!"C01: unknown argument class {c}"
 
+
+/-! ## element operations that raise: entries "exprE" / "bcastE" -/
+
+partial def getTermFull (j : Json) : Except String Term := do
+  match j with
+  | Json.arr (f :: args) => pure (.app (nm (← getStr f)) (← args.mapM getTermFull))
+  | _ => pure (.atom (← getNat j))
+
+partial def termBeq : Term → Term → Bool
+  | .atom a, .atom b => a == b
+  | .app f xs, .app g ys => f == g && xs.length == ys.length && (xs.zip ys).all fun p => termBeq p.1 p.2
+  | _, _ => false
+
+/-- the oracle handed over by the harness: the applications on which python raises -/
+def badOf (tbl : List Term) (t : Term) : Bool := tbl.any (termBeq t)
+
+def outJson : Out → Json
+  | .item x => Json.arr [Json.str "i", termJson x]
+  | .raised t => Json.arr [Json.str "r", termJson t]
+  | .stop => Json.arr [Json.str "s"]
+
+def exJson : Except Term (List Term) → Json
+  | .ok xs => Json.mkObj [("ok", arr termJson xs)]
+  | .error t => Json.mkObj [("err", termJson t)]
+
+def readOutJson : ReadOut → Json
+  | .one o => Json.mkObj [("one", outJson o)]
+  | .took r => Json.mkObj [("took", exJson r)]
+
+def getRead (j : Json) : Except String Read := do
+  match j with
+  | Json.arr [Json.str "next"] => pure .next
+  | Json.arr [Json.str "take", k] => pure (.take (← getNat k))
+  | _ => throw "C01: read = [\"next\"] | [\"take\", k]"
+
+def getBadTable (j : Json) : Except String (List Term) :=
+  match optField j "bad" with
+  | some b => getList getTermFull b
+  | none => pure []
+
+def handleE (entry : String) (j : Json) : Except String Json := do
+  match entry with
+  | "exprE" =>
+    let p ← getPy (← field j "prog")
+    let n ← getNat (← field j "n")
+    let bad := badOf (← getBadTable j)
+    let reads ← match optField j "reads" with
+      | some r => getList getRead r
+      | none => pure []
+    let model : Json :=
+      match installed with
+      | none => Json.mkObj [("err", Json.str "ClassCreationFails")]
+      | some tbl =>
+        match evalPy tbl p with
+        | .error e => Json.mkObj [("err", Json.str (errName e))]
+        | .ok (.iterable isS it) =>
+          let r := it.drainS bad n
+          Json.mkObj [("kind", Json.str (if isS then "stream" else "iter")),
+                      ("outs", arr outJson r.1),
+                      ("queried", arr (arr termJson) (it.drainQ bad n)),
+                      ("script", arr readOutJson (it.script bad reads).1),
+                      ("unread", unreadJson r.2.unread)]
+        | .ok (.scalar c) => Json.mkObj [("kind", Json.str "scalar"), ("value", termJson c)]
+        | .ok (.ignored c) => Json.mkObj [("kind", Json.str "ignored"), ("value", termJson c)]
+    let spec := Json.mkObj [("sort", Json.str (sortName p.sort)), ("genFree", Json.bool p.genFree),
+                            ("outs", arr outJson (p.outs bad n)), ("outsP", arr outJson (p.outsP bad n))]
+    pure <| Json.mkObj [("model", model), ("spec", spec)]
+  | "bcastE" =>
+    let f := nm (← getStr (← field j "f"))
+    let dname := nm (← getStr (← field j "dname"))
+    let dpos ← match optField j "dpos" with
+      | some v => do pure (some (← getNat v))
+      | none => pure none
+    let args ← getList getTerm (← field j "args")
+    let kwargs ← getList (fun kv => do
+        let a ← getArr kv
+        match a with
+        | [k, v] => pure (nm (← getStr k), ← getTerm v)
+        | _ => throw "kwargs entry must be [name, id]") (← field j "kwargs")
+    let arg ← getBArg (← field j "arg")
+    let n ← getNat (← field j "n")
+    let bad := badOf (← getBadTable j)
+    let c : ECall := { f := f, dname := dname, dpos := dpos, args := args, kwargs := kwargs, arg := arg }
+    let lazyJ (kind : String) (it : Iter) : Json :=
+      let r := it.drainS bad n
+      Json.mkObj [("out", Json.str kind), ("outs", arr outJson r.1), ("queried", arr (arr termJson) (it.drainQ bad n)),
+                  ("unread0", unreadJson it.unread), ("unread", unreadJson r.2.unread)]
+    let model : Json := match elementwiseE bad c with
+      | .value o => Json.mkObj [("out", Json.str "value"), ("outs", arr outJson [o]),
+                                ("queried", arr (arr termJson) [[c.plainCall]])]
+      | .gen it => lazyJ "generator" it
+      | .stream it => lazyJ "stream" it
+      | .cast k r left =>
+        Json.mkObj [("out", Json.str ("same:" ++ kindName k)), ("took", exJson r),
+                    ("queried", arr (arr termJson) (c.data.drainQ bad c.arg.drainFuel)),
+                    ("unread", unreadJson left.unread)]
+      | .keyError => Json.mkObj [("out", Json.str "keyError")]
+    let srcOuts : List Out := match arg with
+      | .obj _ self => [.item self]
+      | .sized _ _ xs => xs.map .item
+      | .lazy _ src => src.drainE bad n
+    let specOuts : List Out := match arg with
+      | .obj _ self => [chk bad (c.callWith self)]
+      | _ => bcastOuts bad c srcOuts
+    let spec := Json.mkObj [
+      ("found", Json.bool c.found),
+      ("out", Json.str (outKindName (if c.found then bcastKind arg.kind else .keyError))),
+      ("outs", arr outJson specOuts),
+      ("took", exJson (takeOuts specOuts))]
+    pure <| Json.mkObj [("model", model), ("spec", spec)]
+  | _ => throw s!"C01: unknown entry {entry}"
+
 def handle (entry : String) (j : Json) : Except String Json := do
   match entry with
+  | "exprE" => handleE entry j
+  | "bcastE" => handleE entry j
   | "bcast" =>
     let f := nm (← getStr (← field j "f"))
     let dname := nm (← getStr (← field j "dname"))
@@ -163,7 +280,7 @@ def handle (entry : String) (j : Json) : Except String Json := do
     let ops := initializeOps ALV.Gen.OpTable.table
     let opsJ := arr (fun (o : OpMethod) => Json.mkObj [
         ("name", str o.name), ("symbol", str o.symbol), ("rev", Json.bool o.rev),
-        ("dname", str o.dname), ("arity", Json.int o.arity), ("func", str o.func)]) ops
+        ("dname", str o.dname), ("arity", Json.int o.arity), ("func", str o.func), ("repr", str o.reprStr)]) ops
     let instJ : Json := match installed with
       | none => Json.null
       | some tbl => arr (fun (kv : Name × Dunder) => Json.mkObj [
@@ -172,6 +289,22 @@ def handle (entry : String) (j : Json) : Except String Json := do
         ("dname", str sp.dname), ("builder", Json.str (builderName sp.builder)), ("func", str sp.fn),
         ("base", str sp.base), ("reflected", Json.bool sp.reflected), ("arity", Json.int sp.arity)]) specTable
     pure <| Json.mkObj [("model", Json.mkObj [("ops", opsJ), ("installed", instJ)]), ("spec", specJ)]
+
+  | "meta" =>
+    -- a class built with a user's subclass of AbstractOperatorOverloaderMeta
+    let strs (k : String) : Except String (List Name) := do
+      let l ← getList getStr (← field j k)
+      pure (l.map nm)
+    let hvL ← getList getStr (← field j "have")
+    let hv : Builder → Bool := fun b => hvL.contains (builderName b)
+    let r := installW ALV.Gen.OpTable.table hv (← strs "ns") (← strs "ops") (← strs "without")
+    let model : Json := match r with
+      | .error .valueError => Json.mkObj [("err", Json.str "ValueError")]
+      | .error .keyError => Json.mkObj [("err", Json.str "KeyError")]
+      | .error (.noBuilder d) => Json.mkObj [("err", Json.str "TypeError"), ("op", str d)]
+      | .ok tbl => Json.mkObj [("installed", arr (fun (kv : Name × Dunder) => Json.mkObj [
+          ("dname", str kv.1), ("builder", Json.str (builderName kv.2.builder)), ("func", str kv.2.func)]) tbl)]
+    pure <| Json.mkObj [("model", model)]
   | _ => throw s!"C01: unknown entry {entry}"
 
 end ALV.Driver.C01
